@@ -406,7 +406,7 @@ Definition objectArith (o : opcode) (lhs rhs : value) : VM value :=
   | VNum x, VNum y => numberArith o x y
   | _, _ =>
       vdo op <- metaOp2 lhs rhs (arith_event (op_binop o));
-      if is_function op then
+      if negb (is_nil op) then
         vdo _ <- reg_push op; vdo _ <- reg_push lhs; vdo _ <- reg_push rhs; vdo _ <- Call 2 1; reg_pop
       else fault_ 2
   end.
@@ -428,7 +428,7 @@ Fixpoint concat_loop (fuel : nat) (i total : Z) (rhs : value) : VM value :=
       else
         if is_fault lhs || is_fault rhs then vunsup 111 else
         vdo op <- metaOp2 lhs rhs s_mm_concat;
-        if is_function op then
+        if negb (is_nil op) then
           vdo _ <- reg_push op; vdo _ <- reg_push lhs; vdo _ <- reg_push rhs; vdo _ <- Call 2 1;
           vdo r <- reg_pop;
           concat_loop k (i - 1) (total - 1) r
@@ -443,7 +443,7 @@ Definition stringConcat (total last : Z) : VM value :=
 Definition objectRational (lhs rhs : value) (ev : bytes) : VM Z :=
   vdo m1 <- metaOp1 lhs ev;
   vdo m2 <- metaOp1 rhs ev;
-  if is_function m1 && raweq m1 m2 then
+  if negb (is_nil m1) && raweq m1 m2 then
     vdo _ <- reg_push m1; vdo _ <- reg_push lhs; vdo _ <- reg_push rhs; vdo _ <- Call 2 1;
     vdo r <- reg_pop;
     vret (if truthy r then 1 else 0)
@@ -768,19 +768,22 @@ Definition exec_op (cl : closure) (cf : cframe) (inst : Z) (baseframe : option n
       match unaryv with
       | VNum f => vdo _ <- reg_set RA (VNum (- f)%float); vret false
       | _ =>
-          vdo h <- metaOp1 unaryv s_mm_unm;
-          if is_function h then
-            vdo _ <- reg_push h; vdo _ <- reg_push unaryv; vdo _ <- Call mainloop 1 1;
-            vdo r <- reg_pop; vdo _ <- reg_set RA r; vret false
-          else match unaryv with
-               | VStr s => vdo pn <- parseNumber s;
-                           match pn with
-                           | PN f => vdo _ <- reg_set RA (VNum (- f)%float); vret false
-                           | PNo => fault_ 2
-                           end
-               | VFault _ _ => vunsup 111
-               | _ => fault_ 2
-               end
+          (* 46ac53a: a string convertible to a number is negated before any __unm handler is
+             looked for; 5c2f2ce: any non-nil handler is called *)
+          vdo pn <- (match unaryv with VStr s => parseNumber s | _ => vret PNo end);
+          match pn with
+          | PN f => vdo _ <- reg_set RA (VNum (- f)%float); vret false
+          | PNo =>
+              match unaryv with
+              | VFault _ _ => vunsup 111
+              | _ =>
+                  vdo h <- metaOp1 unaryv s_mm_unm;
+                  if negb (is_nil h) then
+                    vdo _ <- reg_push h; vdo _ <- reg_push unaryv; vdo _ <- Call mainloop 1 1;
+                    vdo r <- reg_pop; vdo _ <- reg_set RA r; vret false
+                  else fault_ 2
+              end
+          end
       end
   | OP_NOT =>
       vdo v <- reg_get (lbase + B); vdo _ <- reg_set RA (VBool (negb (truthy v))); vret false
@@ -791,7 +794,7 @@ Definition exec_op (cl : closure) (cf : cframe) (inst : Z) (baseframe : option n
       | VFault _ _ => vunsup 111
       | _ =>
           vdo h <- metaOp1 lv s_mm_len;
-          if is_function h then
+          if negb (is_nil h) then
             vdo _ <- reg_push h; vdo _ <- reg_push lv; vdo _ <- Call mainloop 1 1;
             vdo r <- reg_pop; vdo _ <- reg_set RA r; vret false
           else match lv with
